@@ -1,9 +1,80 @@
-"""extension ops (stateful / non-`q` ops); filled in per property"""
+"""extension ops: constructors from raw strings / files, stateful objects, moves"""
+import os, tempfile, shutil
+from . import real
+
+
+class StrSub(str):
+    pass
+
+
+OTHERS = {"none": None, "int": 5, "bytes": b"ACD", "list": ["A"], "strsub": StrSub("ACD"), "float": 1.5, "tuple": ("A", "C")}
+
+
+def _tmp(state):
+    if "tmp" not in state:
+        state["tmp"] = tempfile.mkdtemp(prefix="ciderverif_")
+    return state["tmp"]
+
+
+def write_file(state, text):
+    d = _tmp(state)
+    state["nfile"] = state.get("nfile", 0) + 1
+    p = os.path.join(d, "seq%d.txt" % state["nfile"])
+    with open(p, "w", encoding="utf-8", newline="") as fh:
+        fh.write(text)
+    return p
 
 
 def eval_ext(toks, state):
-    raise KeyError("unknown op " + toks[0])
+    SP = real.SP()
+    op = toks[0]
+    if op == "reset":
+        state.pop("objs", None)
+        return ("none",)
+    if op == "mk":
+        text = real.unhex6(toks[1]) if len(toks) > 1 else ""
+        return real.query(SP(text), "seq", [])
+    if op == "mkother":
+        return real.query(SP(OTHERS[toks[1]]), "seq", [])
+    if op == "mkq":
+        return real.query(SP(real.unhex6(toks[1])), toks[2], toks[3:])
+    if op == "parse":
+        from localcider.backend.seqfileparser import SequenceFileParser
+        text = real.unhex6(toks[1]) if len(toks) > 1 else ""
+        return ("str", SequenceFileParser().parseSeqFile(write_file(state, text)))
+    if op == "parseq":
+        return real.query(SP(sequenceFile=write_file(state, real.unhex6(toks[1]))), toks[2], toks[3:])
+    objs = state.setdefault("objs", {})
+    if op == "new":
+        objs[toks[1]] = SP(toks[2])
+        return ("none",)
+    if op == "o":
+        return real.query(objs[toks[1]], toks[2], toks[3:])
+    if op == "setphos":
+        vals = [int(x) for x in toks[2:]]
+        mode = state.get("phosmode", 0)
+        state["phosmode"] = mode + 1
+        if len(vals) == 1 and mode % 3 == 0:
+            arg = vals[0]            # single int
+        elif mode % 3 == 1:
+            arg = tuple(vals)
+        else:
+            arg = list(vals)
+        objs[toks[1]].set_phosphosites(arg)
+        return ("none",)
+    if op == "clearphos":
+        objs[toks[1]].clear_phosphosites()
+        return ("none",)
+    if op == "setpal":
+        objs[toks[1]].set_HTMLColorResiduePalette(real.dict_tok(toks[2]))
+        return ("none",)
+    if op == "move":
+        from . import real_moves
+        return real_moves.eval_move(toks, state)
+    raise KeyError("unknown op " + op)
 
 
 def cleanup(state):
-    pass
+    d = state.pop("tmp", None)
+    if d:
+        shutil.rmtree(d, ignore_errors=True)
